@@ -27,6 +27,8 @@ def run(facts, chk, tier, only=None):
     from . import subs
     # the run must not abort / wrap on an unsigned subtraction of path or sequence lengths (necessary for any output at all)
     chk.guard('C17.sub', 'C17.sub:run', lambda: subs.check(facts, chk, 'C17.sub'))
+    from . import lo_e2e
+    chk.guard('C17.e2e', 'C17.e2e:run', lambda: lo_e2e.check_snps(facts, chk, 'C17.e2e', tier))
     from . import c18
     chk.guard('C17.leaf', 'C17.leaf:run', lambda: c18.check_graph_leaves(facts, chk, 'C17.leaf'))
     av = facts.fn(PV + 'analyse_variant_groups')
